@@ -94,7 +94,8 @@ EXTRA = {
         "display_request_error_templates / display_header_error_templates / invalid_*_texts / bad_request_prefix / bad_request_suffix tie them to the model's constants and request_error_display / header_error_display prove the model's Display is the instance of the variant's template for EVERY error value. The default limit (never set) is probed on connections and servers as well.",
  "C05": TABLES.format(what="status / version tables, default server identity, Allow delimiter and writer literals") +
         " Moreover the writer functions of response.rs (StatusLine::write_all, ResponseHeaders::{write_allow_header, write_deprecation_header, write_all}, Response::{write_body, write_all}) are translated "
-        "statement by statement into a Lean function and Tables.response_writer proves it equal to the model's piece list for EVERY response.",
+        "statement by statement into a Lean function and Tables.response_writer proves it equal to the model's piece list for EVERY response; Response::new (with ..Default::default() resolved through the Default impls) and the eight public setters (through the ResponseHeaders setters they call) are translated as well, and "
+        "Tables.response_new / response_apply / response_build prove that every response built through the public API is the model's Response.build — construction, builder calls and serialization of response.rs are all tied by proof, the correspondence remaining as the fallback for shapes the translator does not understand.",
  "C10": TABLES.format(what="MAX_CONNECTIONS, the equality form of the capacity test and the 503 literal") +
         " The one-step invariant theorems are lifted to whole histories (Props/C10History.lean): history_inv / reachable — after EVERY admissible sequence of polls, respond, enqueue_responses (respondMany_inv: never Underflow), flush, set_payload_max_size and add_kill_switch from a new server there are at most 10 connections, distinct descriptors and identities, live tokens and exact in-flight counts.",
  "C15": TABLES.format(what="recognised header names (canonical and the lower-case keys Header::try_from matches) and media-type spellings") +
